@@ -108,7 +108,20 @@ def generate_interleave(rng):
     }
 
 
+def generate_dst(rng):
+    """Runs on both sides of the hour in which a daylight-saving zone falls back (the process's TZ is such a zone): the
+    local wall clock repeats an hour, the order of the runs does not."""
+    t = seams.EPOCH.replace(year=2031, month=11, day=2, hour=5, minute=rng.choice([5, 30, 55]), second=rng.choice([0, 59]))  # 01:xx EDT
+    g = rng.choice(["g1", "g2"])
+    steps = []
+    for s, dt_min in enumerate([0] + sorted(rng.sample(range(20, 130), rng.randint(1, 3)))):
+        steps.append({"at": seams.iso(t + _dt.timedelta(minutes=dt_min)), "profile": "start" if s == 0 else "+min", "inst": rng.choice(["new", "reused"]) if s else "new", "group": g if rng.random() < 0.85 else ("g2" if g == "g1" else "g1"), "method": rng.choice(["collect_paths", "collect_by_line", "next_paths_collect"])})
+    return {"seed": rng.getrandbits(32), "listdir_salt": rng.choice([None, rng.getrandbits(16)]), "step_us": 0, "steps": steps, "tz": rng.choice(["EST5EDT,M3.2.0,M11.1.0", "CET-1CEST,M3.5.0,M10.5.0/3"])}
+
+
 def generate(rng, i, tier):
+    if i % 25 == 18:
+        return generate_dst(rng)
     if i % 25 == 24:
         return generate_burst(rng)
     if i % 25 in (12, 6):
@@ -176,6 +189,8 @@ def reductions(sc):
         yield with_(sc, listdir_salt=None)
     if sc.get("step_us"):
         yield with_(sc, step_us=0)
+    if sc.get("tz"):
+        yield with_(sc, tz=None)
     for j, st in enumerate(sc["steps"]):
         if st["method"] != "collect_paths":
             c = with_(sc)
@@ -295,6 +310,24 @@ def execute(sc):
     steps = sc["steps"]
     t0 = seams.parse_iso(steps[0]["at"]) if steps else seams.EPOCH
     seams.reset(sc["seed"], clock=t0, step_us=sc.get("step_us", 0), listdir_salt=sc.get("listdir_salt"))
+    if sc.get("tz"):
+        # the process lives in a zone with daylight saving (the simulated clock itself stays UTC)
+        old_tz = os.environ.get("TZ")
+        os.environ["TZ"] = sc["tz"]
+        seams.REAL_TIME.tzset()
+        out.fault("tz_with_dst")
+        try:
+            return _execute_history(sc, out, steps)
+        finally:
+            if old_tz is None:
+                os.environ.pop("TZ", None)
+            else:
+                os.environ["TZ"] = old_tz
+            seams.REAL_TIME.tzset()
+    return _execute_history(sc, out, steps)
+
+
+def _execute_history(sc, out, steps):
     with W.World() as w:
         w.write_csv("src/f.csv", ROWS)
         cs = ops.new_csvpaths()
